@@ -128,6 +128,14 @@ func runScript(ctx context.Context, options *Options, script *plruntime.Script) 
 		return fmt.Errorf("run script error: %w", errR)
 	}
 
+	// report the point as the script left it (measurement, time and the drop
+	// flag are values, the snapshot taken before the run does not follow them)
+	fields = pt.Fields
+	tags = pt.Tags
+	dropped = pt.Drop
+	tn = pt.Time
+	measurement = pt.Measurement
+
 	if dropped {
 		return fmt.Errorf("point dropped")
 	}
